@@ -60,6 +60,9 @@ func ExistedBefore(prev *Schema, e Expect) bool {
 	case "enumval":
 		full, _, _ := strings.Cut(rest, "#")
 		return prev.EnumByName(full) != nil
+	case "ext":
+		full, _, _ := strings.Cut(rest, ":")
+		return prev.findExt(Site{Name: full}) != nil
 	case "field":
 		spec, _, _ := strings.Cut(rest, ":")
 		full, ns, _ := strings.Cut(spec, "#")
@@ -92,6 +95,25 @@ type Op struct {
 	ProbeOnly bool
 	Sites     func(s *Schema) []Site
 	Apply     func(s *Schema, site Site, r *hx.Rand) ([]Expect, bool)
+	// KindOf classifies the element a site names (syntax of its file, kind of field / message /
+	// enum ...); the C03 harness plants every operator at every kind.  nil: one kind.
+	KindOf func(s *Schema, site Site) string
+}
+
+// SiteKind is KindOf with the nil case.
+func (op *Op) SiteKind(s *Schema, site Site) string {
+	if op.KindOf == nil {
+		return "-"
+	}
+	return op.KindOf(s, site)
+}
+
+// SiteSyntax: "p2" | "p3" | "ed" of the file the site is in.
+func (op *Op) SiteSyntax(s *Schema, site Site) string {
+	if f := s.File(site.File); f != nil {
+		return SyntaxTag(f)
+	}
+	return "-"
 }
 
 // ---------------------------------------------------------------------------------------------
@@ -125,6 +147,14 @@ func (m *Message) FieldByNum(n int) (*Field, int) {
 }
 
 func (s *Schema) fieldAt(site Site) (*MsgLoc, *Field) {
+	if site.Msg == "" {
+		// an extension field: Site.Name is its full name
+		es := s.findExt(site)
+		if es == nil {
+			return nil, nil
+		}
+		return &MsgLoc{F: es.xl.F, M: &Message{}, Ext: es}, es.fl
+	}
 	ml := s.Msg(site.Msg)
 	if ml == nil {
 		return nil, nil
@@ -266,6 +296,9 @@ func eMsg(rule string, ml *MsgLoc, suffix string) Expect {
 	return Expect{Rule: rule, File: ml.F.Name, Locator: "msg:" + ml.Full + suffix}
 }
 func eField(rule string, ml *MsgLoc, fl *Field, suffix string) Expect {
+	if ml.Ext != nil {
+		return Expect{Rule: rule, File: ml.F.Name, Locator: "ext:" + extFull(ml.Ext.xl, fl) + suffix}
+	}
 	return Expect{Rule: rule, File: ml.F.Name, Locator: "field:" + ml.Full + "#" + num(fl.Num) + suffix}
 }
 func eEnum(rule string, el *EnumLoc, suffix string) Expect {
@@ -505,7 +538,54 @@ func fieldSites(s *Schema, pred func(ml *MsgLoc, fl *Field) bool) []Site {
 			}
 		}
 	}
+	// extension fields (pseudo location, see MsgLoc.Ext)
+	for _, es := range s.extFields() {
+		es := es
+		if pred(&MsgLoc{F: es.xl.F, M: &Message{}, Ext: &es}, es.fl) {
+			out = append(out, Site{File: es.xl.F.Name, Name: extFull(es.xl, es.fl), Num: es.fl.Num})
+		}
+	}
 	return out
+}
+
+// fieldSiteKind is the KindOf of the field operators.
+func fieldSiteKind(s *Schema, site Site) string {
+	ml, fl := s.fieldAt(site)
+	if fl == nil {
+		return "-"
+	}
+	return FieldKind(ml.F, fl, ml.Ext != nil)
+}
+
+func msgSiteKind(s *Schema, site Site) string {
+	ml := s.Msg(site.Msg)
+	if ml == nil {
+		return "-"
+	}
+	switch {
+	case ml.Group != nil:
+		return "group-message"
+	case ml.Depth >= 4:
+		return "deep"
+	case ml.Depth > 1:
+		return "nested"
+	}
+	return "top"
+}
+
+func enumSiteKind(s *Schema, site Site) string {
+	el := s.EnumByName(site.Enum)
+	if el == nil {
+		return "-"
+	}
+	k := "top"
+	if el.Parent != nil {
+		k = "nested"
+	}
+	if el.IsOpen() {
+		return k + "/open"
+	}
+	return k + "/closed"
 }
 
 func hasMaxRange(m *Message) bool {
@@ -547,6 +627,7 @@ var AdditiveOps = []*Op{
 		s.Files = append(s.Files, f)
 		g := newGen(s, r, f)
 		g.genFileOptions(f)
+		g.genFileFeatures(f)
 		if r.Bool() {
 			f.Enums = append(f.Enums, g.genEnum(f, f.prefix()))
 		}
@@ -734,6 +815,53 @@ var AdditiveOps = []*Op{
 		ml.M.Fields[pos] = fl
 		return true
 	}),
+	// a new field of a chosen KIND (every shape x type the syntax of the file allows, except
+	// required and extension: see zooCombos)
+	additive("AddFieldOfKind", func(s *Schema) []Site { return msgSites(s, nil) }, func(s *Schema, site Site, r *hx.Rand) bool {
+		ml := s.Msg(site.Msg)
+		g := newGen(s, r, ml.F)
+		var combos [][2]string
+		for _, c := range zooCombos(FlavourOf(ml.F)) {
+			if c[0] != "required" && c[0] != "ext" && c[0] != "extrepeated" {
+				combos = append(combos, c)
+			}
+		}
+		c := hx.Pick(r, combos)
+		var leafs []string
+		for _, t := range g.msgs {
+			leafs = append(leafs, t.Full)
+		}
+		enumFull := ""
+		if e := g.pickEnum(ml.F, true); e != nil {
+			enumFull = e.Full
+		}
+		if c[1] == "enum" && enumFull == "" {
+			c[1] = "scalar"
+		}
+		if c[1] != "scalar" && c[1] != "enum" && c[1] != "group" && len(leafs) == 0 {
+			return false
+		}
+		fl := g.kindField(ml.F, ml.M, ml.Full, c[0], c[1], leafs, enumFull)
+		if c[0] == "oneof" {
+			if names := ml.M.oneofNames(); len(names) > 0 && r.Bool() {
+				fl.Oneof = hx.Pick(r, names)
+				// keep the members contiguous: insert after the last member
+				last := -1
+				for i, o := range ml.M.Fields {
+					if o.Oneof == fl.Oneof {
+						last = i
+					}
+				}
+				ml.M.Fields = append(ml.M.Fields, nil)
+				copy(ml.M.Fields[last+2:], ml.M.Fields[last+1:])
+				ml.M.Fields[last+1] = fl
+				return true
+			}
+			fl.Oneof = "choice_" + s.fresh("")
+		}
+		ml.M.Fields = append(ml.M.Fields, fl)
+		return true
+	}),
 	additive("AddFieldToOneof", func(s *Schema) []Site {
 		return msgSites(s, func(ml *MsgLoc) bool { return len(ml.M.oneofNames()) > 0 })
 	}, func(s *Schema, site Site, r *hx.Rand) bool {
@@ -786,7 +914,36 @@ type State struct {
 
 func (st State) Sources() map[string]string { return Render(st.S, st.K) }
 
-var CosmeticOpNames = []string{"Rerender", "ReorderDecls", "SyntaxLineProto2"}
+var CosmeticOpNames = []string{"Rerender", "ReorderDecls", "SyntaxLineProto2", "RegroupRanges"}
+
+// regroup re-expresses a list of number ranges without changing the set of numbers: a range is
+// split into two adjacent ones, or two adjacent ranges are merged (tag_ranges.go collapses
+// adjacent ranges before looking for missing numbers).
+func regroup(r *hx.Rand, rs []Range) ([]Range, bool) {
+	var splittable, mergeable []int
+	for i, rg := range rs {
+		if rg.Hi > rg.Lo && !rg.Max {
+			splittable = append(splittable, i)
+		}
+		if i+1 < len(rs) && !rg.Max && rs[i+1].Lo == rg.Hi+1 {
+			mergeable = append(mergeable, i)
+		}
+	}
+	switch {
+	case len(mergeable) > 0 && (len(splittable) == 0 || r.Bool()):
+		i := hx.Pick(r, mergeable)
+		out := append([]Range(nil), rs[:i]...)
+		out = append(out, Range{Lo: rs[i].Lo, Hi: rs[i+1].Hi, Max: rs[i+1].Max})
+		return append(out, rs[i+2:]...), true
+	case len(splittable) > 0:
+		i := hx.Pick(r, splittable)
+		mid := rs[i].Lo + r.Intn(rs[i].Hi-rs[i].Lo)
+		out := append([]Range(nil), rs[:i]...)
+		out = append(out, Range{Lo: rs[i].Lo, Hi: mid}, Range{Lo: mid + 1, Hi: rs[i].Hi})
+		return append(out, rs[i+1:]...), true
+	}
+	return rs, false
+}
 
 func shuffleMsg(r *hx.Rand, m *Message) {
 	hx.Shuffle(r, m.Nested)
@@ -799,6 +956,28 @@ func shuffleMsg(r *hx.Rand, m *Message) {
 
 // ApplyCosmetic returns a state that is the same schema for the detector.
 func ApplyCosmetic(st State, r *hx.Rand) (State, string) {
+	if r.Chance(1, 5) {
+		s := st.S.Clone()
+		hit := false
+		for _, ml := range s.Msgs() {
+			var ok bool
+			if ml.M.Reserved, ok = regroup(r, ml.M.Reserved); ok {
+				hit = true
+			}
+			if ml.M.ExtRanges, ok = regroup(r, ml.M.ExtRanges); ok {
+				hit = true
+			}
+		}
+		for _, el := range s.EnumsAll() {
+			var ok bool
+			if el.E.Reserved, ok = regroup(r, el.E.Reserved); ok {
+				hit = true
+			}
+		}
+		if hit {
+			return State{S: s, K: st.K}, "RegroupRanges"
+		}
+	}
 	switch r.Intn(5) {
 	case 0, 1:
 		return State{S: st.S, K: RandKnobs(r)}, "Rerender"
